@@ -7,7 +7,7 @@ sys.path.insert(0, os.path.dirname(os.path.dirname(os.path.abspath(__file__))))
 
 from harness.runner import Check  # noqa: E402
 
-KINDS = ["eager", "lazy", "reflect", "normalize", "sequential", "moment_matching", "memoize", "user_partial", "adjoint", "user_partial2"]
+KINDS = ["eager", "lazy", "reflect", "normalize", "sequential", "moment_matching", "memoize", "user_partial", "adjoint", "user_partial2", "memoize_partial"]
 TOTAL_KINDS = 6   # the first six are total interpretations that may sit on the raw stack
 FORMS = ["with", "decorator", "memoize()", "interpretation()"]
 
@@ -48,6 +48,18 @@ def step_fn(kind, form, max_extra, inner_depth, with_reentry=False):
     IDX_BAD = _Tensor(_np.array([0, 7]), {"j": _Bint[2]}, 3)          # 7 is out of range: numpy raises inside eager_subs
     IDX_GOOD = _Tensor(_np.array([2, 0]), {"j": _Bint[2]}, 3)
 
+    PRE777 = Number(777.0)                       # built outside every context
+    with lazy:
+        PRE_EXPR = Variable("x", Real) + PRE777      # a lazy term holding that constant
+
+    def reinterpret_probe(k):
+        """funsor.reinterpret rebuilds EVERY node - constants included - under the active interpretation"""
+        if k != "user_partial":
+            return
+        if funsor.reinterpret(PRE777) is not MARKN:
+            raise AssertionError("reinterpret of a constant under a partial interpretation with a rule on Number did not apply the rule")
+        return funsor.reinterpret(PRE_EXPR)
+
     def failing_substitution():
         """a user error raised in the middle of a substitution and caught by the user must not disturb the stack"""
         before = list(IP._STACK)
@@ -74,6 +86,8 @@ def step_fn(kind, form, max_extra, inner_depth, with_reentry=False):
             return table[k]
         if k == "memoize":
             return Memoize(IP.get_interpretation())
+        if k == "memoize_partial":      # "memoize only my layer": Memoize around a PARTIAL interpretation is itself partial
+            return Memoize(user_partial)
         return AdjointTape()
 
     def choose(name, n):
@@ -107,12 +121,15 @@ def step_fn(kind, form, max_extra, inner_depth, with_reentry=False):
                 elif not (isinstance(top, PrioritizedInterpretation) and top.subinterpretations[0] is ni
                           and tuple(top.subinterpretations[1:]) == tuple(before[-1].subinterpretations)):
                     raise AssertionError("nested: partial interpretation %s not layered on top of the previous one: %r over %r" % (k, top, before[-1]))
-                if k in ("user_partial", "user_partial2"):
+                if k in ("user_partial", "user_partial2", "memoize_partial"):
                     got = Variable("x", Real) - Number(1.0)
-                    if got is not (MARK if k == "user_partial" else MARK2):
+                    if got is not (MARK2 if k == "user_partial2" else MARK):
                         raise AssertionError("nested: the innermost partial interpretation %s did not interpret its pattern (got %r)" % (k, got))
                 if k == "user_partial" and Number(777.0) is not MARKN:
                     raise AssertionError("nested: the partial interpretation's rule on Number constants did not run")
+                reinterpret_probe(k)
+                if (Variable("x", Real) + Number(1.0)) is None:
+                    raise AssertionError("nested: a term the partial interpretation %s declines was not passed to the enclosing one" % k)
                 (Variable("x", Real) + 1)(x=2.0)        # substitute() pushes and pops a temporary interpretation
                 failing_substitution()
                 nested(depth - 1)
@@ -175,6 +192,7 @@ def step_fn(kind, form, max_extra, inner_depth, with_reentry=False):
                     if pos == 1:
                         failing_substitution()
                         seen["probe_num"] = Number(777.0)
+                        seen["probe_reint"] = reinterpret_probe(kind)
                         seen["probe_add"] = Variable("x", Real) + Number(1.0)
                         seen["probe_sub"] = Variable("x", Real) - Number(1.0)
                         seen["top_after_nested"] = IP.get_interpretation()
@@ -223,11 +241,18 @@ def step_fn(kind, form, max_extra, inner_depth, with_reentry=False):
             # terms built inside are interpreted by the innermost context (partial ones fall through)
             if res["ok"] and "probe_add" in seen and form != "memoize()":
                 pa, ps = seen["probe_add"], seen["probe_sub"]
-                enclosing = kind if kind not in ("user_partial", "user_partial2", "adjoint", "memoize") else (pre_kinds[-1] if pre_kinds else "eager")
+                enclosing = kind if kind not in ("user_partial", "user_partial2", "adjoint", "memoize", "memoize_partial") else (pre_kinds[-1] if pre_kinds else "eager")
                 lazy_like = enclosing in ("lazy", "reflect")
-                if kind in ("user_partial", "user_partial2"):
-                    if ps is not (MARK if kind == "user_partial" else MARK2):
+                if kind in ("user_partial", "user_partial2", "memoize_partial"):
+                    if ps is not (MARK2 if kind == "user_partial2" else MARK):
                         res.update(ok=False, why="user partial interpretation's rule did not run for its pattern")
+                    if pa is None:
+                        res.update(ok=False, why="a term the partial interpretation declines was not passed to the enclosing interpretation (got None)")
+                    if kind == "user_partial" and seen.get("probe_reint") is not None:
+                        with eager:       # the pre-stack entries are still in place here: evaluate the probe under plain eager
+                            v = funsor.reinterpret(seen["probe_reint"](x=1.0))
+                        if not (isinstance(v, Number) and v.data == 889.0):
+                            res.update(ok=False, why="reinterpret(x + 777) under the partial interpretation did not re-interpret the constant: value at x=1 is %r, expected 889" % (v,))
                     if kind == "user_partial" and seen.get("probe_num") is not MARKN:
                         res.update(ok=False, why="user partial interpretation's rule on Number constants did not run (got %r)" % (seen.get("probe_num"),))
                 if res["ok"] and kind != "normalize" and enclosing != "normalize":
@@ -282,7 +307,7 @@ def main():
                 insts.append((k, f, 2, 1))
                 if k in ("user_partial", "adjoint", "memoize"):
                     insts.append((k, f, 1, 2))
-            if k != "memoize" and f != "memoize()":
+            if k not in ("memoize", "memoize_partial") and f != "memoize()":
                 insts.append((k, f, 1 if tier == "quick" else 2, 0, "reentry"))
     chk.map("checks.c17", "worker", insts, chunksize=1)
     chk.bounds = dict(pre_stack_extra_entries="<=1 (quick) / <=2", reentry="the same interpretation object entered before under another enclosing context (left normally / by exception)", kinds=KINDS, forms=FORMS, exception_positions=4,
